@@ -76,6 +76,16 @@ CHECKS = {
         note='proved on the protocol/routing model (unbounded in sizes, segment count, history length); tied to NITFWriter by byte equality of '
              'real outputs across protocols and histories, not by a translator. Pixel codecs: C08. Metadata: compared after derive(). ' + TB,
         technique='Lean 4 proof (composition of C03/C07 theorems, state-machine induction) + byte-exact differential over histories'),
+    'C10': dict(
+        text='Lean 4 theorem regroup_iidList: for any number of product images and any positive number of segments per image, the '
+             "reader's IID1-based regrouping of the image segments the writer emits returns exactly the writer's grouping, in order, and "
+             'the groups partition the segment indices; headers naming an image beyond the SIDD count are refused. Row routing per image and '
+             'file layout are the C02/C03 theorems. Real SIDD files (1-4 images, three pixel types, row limits, chunk orders, path/BytesIO, '
+             'embedded SICD) are written, parsed out of band, regrouped by the model and reopened through open_product.',
+        design='DESIGN.md 6/C02 (C10 paragraph)',
+        note='proved: regrouping decision logic (unbounded counts). Correspondence: IID1 element numbers/groups of real files vs the model. '
+             'Only SIDD 2 structures are generated (versions 1 and 3 share the code paths but are not exercised). ' + TB,
+        technique='Lean 4 proof (induction over image list) + write/read differential + out-of-band NITF parser'),
 }
 
 
